@@ -2,23 +2,25 @@
   C05 — Decoders never panic and never over-allocate on hostile input  (WKB / EWKB part; the WKT,
   MVT and GeoJSON parts are in OrbProofs/C04.lean, C03.lean, C02.lean).
   PROPERTY THEOREMS about the model `Orb.WKB`, in which every Go slice expression that is not
-  covered by a preceding length guard is an explicit `panic` outcome and the recursion depth of
-  the mutually recursive Scan*/unmarshalMulti* functions and of nested collections is fuel that
-  the model sets to `len(data)`.
+  covered by a preceding length guard is an explicit `panic` outcome.  The byte-slice decoder is not
+  recursive (a member of a multi is decoded by the plain decoder of its type); the stream decoder
+  recurses through nested collections only, `MaxCollectionDepth` (regenerated into `Generated.Params`)
+  levels at most, and answers `ErrNestingTooDeep` beyond.
 -/
 import OrbProofs.C05Lemmas
 import OrbProofs.C05Elems
 import OrbProofs.C05AllocByte
 import OrbProofs.C05AllocLower
+import OrbProofs.C05Depth
 
 namespace Orb.WKB
 
 /-- The one-shot byte decoder returns a value or an error for EVERY byte string: no index or slice
-    panic (the re-derived member offsets 21 / 16n+9 / 9+Σ(4+16n) never exceed what was parsed) and
-    the fuel `len(data)` is never exhausted. -/
+    panic (the re-derived member offsets 21 / 16n+9 / 9+Σ(4+16n) never exceed what was parsed). -/
 theorem unmarshal_total (bs : Bytes) : (unmarshal bs).isPanic = false := unmarshal_total' bs
 
-/-- The streaming decoder likewise (and it terminates: structural recursion on counts and fuel). -/
+/-- The streaming decoder likewise (and it terminates: structural recursion on the counts and on the
+    number of collection levels left). -/
 theorem decode_total (bs : Bytes) : (decode bs).isPanic = false := decode_total' bs
 
 /-- `wkbcommon.Scan` into each of the ten destinations, for every input incl. hex / `\x` framings. -/
@@ -72,53 +74,66 @@ theorem decode_alloc_le (bs : Bytes) : decodeAlloc bs ≤ allocPerByte * bs.leng
 theorem decode_alloc_ok_le (bs : Bytes) (g : G) (s : Nat) (h : decode bs = .ok (g, s)) :
     decodeAlloc bs ≤ allocPerByte * bs.length := decodeAlloc_ok_le' bs g s h
 
-/-- Byte-slice decoder: the same bound for every input whose top-level type is not one of the three
-    multis (points, line strings, polygons, collections — which go through the stream decoder —,
-    unknown types, unreadable headers). -/
-theorem unmarshal_alloc_le_of_not_multi (bs : Bytes)
-    (h : ∀ o typ srid gd, unmarshalBOT bs = .ok (o, typ, srid, gd) →
-      typ ≠ Generated.Params.wkb_multiPointType ∧ typ ≠ Generated.Params.wkb_multiLineStringType ∧
-      typ ≠ Generated.Params.wkb_multiPolygonType) :
-    unmarshalAlloc bs ≤ allocPerByte * bs.length + allocFixed := unmarshalAlloc_le_of_not_multi' bs h
-
-/-- The clause of the property for the byte-slice decoder, as it should read. -/
+/-- The clause of the property for the byte-slice decoder. -/
 def unmarshal_alloc_linear_full : Prop :=
   ∀ bs : Bytes, unmarshalAlloc bs ≤ allocPerByte * bs.length + allocFixed
 
-/-- It is FALSE (recorded finding C05-wkb-nested-multi-quadratic): `unmarshalMultiLineString` /
-    `unmarshalMultiPolygon` / `unmarshalMultiPoint` scan each member with `ScanLineString` / … which accept a
-    nested one-member multi (to any depth, one `make` per level), and then advance by a stride re-derived
-    from the decoded member, not by what the scan looked at. -/
-theorem unmarshal_alloc_linear_full_false : ¬ unmarshal_alloc_linear_full := unmarshalAlloc_not_linear'
+/-- It HOLDS (it was false, finding C05-wkb-nested-multi-quadratic, while `unmarshalMulti*` scanned their
+    members with the coercing `Scan*` functions): every member is decoded by the plain decoder of its
+    type, a succeeding member is paid for by the bytes the loop skips, a failing one ends the loop. -/
+theorem unmarshal_alloc_linear : unmarshal_alloc_linear_full := unmarshalAlloc_le'
 
-/-- … and no other linear bound whose constants fit the format's 32-bit counts holds either. -/
-theorem unmarshal_alloc_exceeds (c K : Nat) (h : c + K + 3 < 2 ^ 32) :
-    ∃ bs : Bytes, c * bs.length + K < unmarshalAlloc bs := unmarshalAlloc_exceeds' c K h
+/-- … also for `wkbcommon.Scan` into each of the ten destinations (after the hex framing is removed). -/
+theorem scanDest_alloc_le (d : Dest) (bs : Bytes) :
+    scanDestAlloc d bs ≤ allocPerByte * bs.length + allocFixed := scanDestAlloc_le' d bs
 
-/-- The witness family: a MultiLineString claiming k+1 members followed by k nested one-member
-    MultiLineString headers and one empty line string (9k+18 bytes).  The decode SUCCEEDS … -/
-theorem nested_unmarshal_ok (k : Nat) (hk : k + 1 < 2 ^ 32) :
-    unmarshal (nestedMultiInput Generated.Params.wkb_multiLineStringType Generated.Params.wkb_lineStringType k)
-      = .ok (.multiLineString (List.replicate (k + 1) []), 0) := nested_unmarshal_ok' k hk
+/-- Regression for the former witness family: a MultiLineString claiming k+2 members followed by k+1
+    nested one-member MultiLineString headers and one empty line string (9k+27 bytes) used to decode
+    SUCCESSFULLY after 12·(k+1)·(k+2) bytes of `make` calls.  It is rejected at the first nested header … -/
+theorem nested_unmarshal_rejected (k : Nat) (hk : k + 2 < 2 ^ 32) :
+    unmarshal (nestedMultiInput Generated.Params.wkb_multiLineStringType Generated.Params.wkb_lineStringType (k + 1))
+      = .err .incorrectGeometry := nested_unmarshal_rejected' k hk
 
-/-- … and requests exactly this much: 12·k·(k+1) bytes beyond the outer `make`. -/
-theorem nested_unmarshal_alloc (k : Nat) (hk : k + 1 < 2 ^ 32) :
-    unmarshalAlloc (nestedMultiInput Generated.Params.wkb_multiLineStringType Generated.Params.wkb_lineStringType k)
-      = szSlice * allocCap (k + 1) Generated.Params.wkb_MaxMultiAlloc + 12 * (k * (k + 1)) :=
-  nested_unmarshalAlloc' k hk
+/-- … having requested the outer `make` only. -/
+theorem nested_unmarshal_alloc (k : Nat) (hk : k + 2 < 2 ^ 32) :
+    unmarshalAlloc (nestedMultiInput Generated.Params.wkb_multiLineStringType Generated.Params.wkb_lineStringType (k + 1))
+      = szSlice * allocCap (k + 2) Generated.Params.wkb_MaxMultiAlloc := nested_unmarshalAlloc' k hk
 
 theorem nested_input_length (t leaf k : Nat) : (nestedMultiInput t leaf k).length = 9 * k + 18 :=
   nestedMultiInput_length' t leaf k
 
-/-- What does hold for EVERY input of the byte-slice decoder: a quadratic bound … -/
-theorem unmarshal_alloc_quadratic (bs : Bytes) :
-    unmarshalAlloc bs ≤ bs.length * bs.length + allocQuadLin * bs.length + allocFixed :=
-  unmarshalAlloc_quadratic' bs
+/-! ### recursion depth (stack)
 
-/-- … also for `wkbcommon.Scan` into each of the ten destinations (after the hex framing is removed). -/
-theorem scanDest_alloc_quadratic (d : Dest) (bs : Bytes) :
-    scanDestAlloc d bs ≤ bs.length * bs.length + allocQuadLin * bs.length + allocFixed :=
-  scanDestAlloc_quadratic' d bs
+  `decodeDepth` / `unmarshalDepth` (Orb/WKB.lean) follow the decoders as the allocation accounting does and
+  return the largest number of `Decoder.Decode` activations that are on the Go stack at the same time —
+  the only recursion in either decoder — for succeeding and failing decodes. -/
+
+/-- EVERY byte string: at most `MaxCollectionDepth + 1` nested `Decode` calls (it was unbounded, finding
+    C05-wkb-deep-nesting-stack-overflow: 9 bytes of input per level, a fatal stack overflow at a few
+    million levels). -/
+theorem decode_depth_le (bs : Bytes) : decodeDepth bs ≤ Generated.Params.wkb_MaxCollectionDepth + 1 :=
+  decodeDepth_le' bs
+
+/-- The byte-slice decoder reaches the recursive decoder for a collection only; its own functions do
+    not recurse at all (`unmarshalMultiF` is not a recursive definition). -/
+theorem unmarshal_depth_le (bs : Bytes) : unmarshalDepth bs ≤ Generated.Params.wkb_MaxCollectionDepth + 1 :=
+  unmarshalDepth_le' bs
+
+/-- What comes back is nested no deeper than the limit (so every recursive consumer of the value —
+    `Bound`, `Equal`, the encoders — recurses no deeper either). -/
+theorem decode_result_depth_le (bs : Bytes) (g : G) (s : Nat) (h : decode bs = .ok (g, s)) :
+    collDepth g ≤ Generated.Params.wkb_MaxCollectionDepth := decode_ok_depth h
+
+theorem unmarshal_result_depth_le (bs : Bytes) (g : G) (s : Nat) (h : unmarshal bs = .ok (g, s)) :
+    collDepth g ≤ Generated.Params.wkb_MaxCollectionDepth := unmarshal_ok_depth h
+
+/-- Non-vacuity of the depth accounting (computed with two levels allowed): three nested collections
+    stack three `Decode` calls and are refused; two are decoded. -/
+theorem depth_witness :
+    decodeWithDepth (readCollectionDepthF 2) [1,7,0,0,0,1,0,0,0, 1,7,0,0,0,1,0,0,0, 1,7,0,0,0,0,0,0,0] = 3 ∧
+    decodeStream 2 [1,7,0,0,0,1,0,0,0, 1,7,0,0,0,1,0,0,0, 1,7,0,0,0,0,0,0,0] = .err .nestingTooDeep ∧
+    decodeStream 2 [1,7,0,0,0,1,0,0,0, 1,7,0,0,0,0,0,0,0] = .ok (.collection [.collection []], 0, []) :=
+  ⟨by decide, rfl, rfl⟩
 
 /-- The fixed part of the bound is attained: a 22-byte stream (MultiPolygon, Polygon and ring, each
     claiming 2^32-1 elements) fails with `EOF` after requesting exactly `allocFixed` bytes. -/
